@@ -446,7 +446,9 @@ def run_case(case):
         snap = fingerprint(terms)
         lst = list(terms)
         for k in range(4):
-            lst2 = [pf.transientTerm(wa.sol, 0.25, 1.0)] + terms
+            # the reused terms come first or last in the list, alternating (the first right-hand-side term of a list
+            # is where an accumulation "RHS = first; RHS += next" would write into the caller's array)
+            lst2 = ([pf.transientTerm(wa.sol, 0.25, 1.0)] + terms) if k % 2 == 0 else (terms[::-1] + [pf.transientTerm(wa.sol, 0.25, 1.0)])
             ids = [id(t) for t in lst2]
             pf.solvePDE(wa.sol, lst2)
             if [id(t) for t in lst2] != ids or len(lst) != len(terms):
